@@ -35,12 +35,56 @@ def _const_variant(tr, b, op, loc):
     return None
 
 
+def _accessor_field(facts, tr, name):
+    """(adt, field) the public accessor `name()` of the context returns"""
+    for b in facts.crates[CRATE].bodies:
+        if b.name == name and b.kind == "fn" and b.j.get("vis") == "pub" and b.arg_count == 1:
+            for (i, j, node) in ret_assigns(tr, b):
+                for x in tr.walk(node, limit=40):
+                    if x[0] == "field" and isinstance(x[2], str) and not x[2].isdigit() and x[3] and facts.adt(x[3]) is not None:
+                        return (x[3], x[2])
+    return None
+
+
+def _roles(facts, tr):
+    """the context's private mutators, named by their effect on the fields the public accessors expose:
+    set_status writes the field status() returns; record_failure / record_success increment the field
+    consecutive_failures() / consecutive_successes() returns"""
+    roles = {}
+    st = _accessor_field(facts, tr, "status")
+    if st:
+        for (b, i, j, s) in field_writes(facts, st[0], st[1]):
+            if b.crate.name == CRATE and b.kind == "fn" and b.arg_count == 2:
+                roles[b.def_] = "set_status"
+    for acc, role in (("consecutive_failures", "record_failure"), ("consecutive_successes", "record_success")):
+        fl = _accessor_field(facts, tr, acc)
+        if not fl:
+            continue
+        for (b, i, j, s) in field_writes(facts, fl[0], fl[1]):
+            v = peel(tr.stmt_value(b, i, j))
+            if v[0] == "field" and peel(v[1])[0] == "binop":
+                v = peel(v[1])
+            if v[0] == "binop" and v[1].startswith("Add") and b.crate.name == CRATE and b.kind == "fn":
+                roles.setdefault(b.def_, role)
+    return roles
+
+
 def run(facts, tr, rep):
+    _n_ops = check_no_panicking_time_arith(facts, tr, rep, "C18.NO-PANIC-ARITH", facts.crates["tower_resilience_healthcheck"].bodies)
+    rep.note("panicking Instant/Duration operators examined: %d" % _n_ops)
     # ---------------------------------------------------------------- WHO / THRESHOLDS
+    roles = _roles(facts, tr)
+    rep.note("context mutators by effect: %s" % {k.split("::")[-1]: v for k, v in roles.items()})
+
+    def role_of(c):
+        for d in c.targets_def():
+            if d in roles:
+                return roles[d]
+        return None
     sites = []
     for b in facts.crates[CRATE].bodies:
         for c in graph(b).calls():
-            if c.name == "set_status" and any(d.startswith(CRATE) for d in c.targets_def()):
+            if role_of(c) == "set_status":
                 sites.append((b, c))
     rep.floor("C18.set_status-sites", len(sites), 3)
     tasks = {b.def_ for (b, _c) in sites}
@@ -67,8 +111,8 @@ def run(facts, tr, rep):
     if arms_sw is None:
         rep.anchor_missing("match on the check result's HealthStatus in the check task")
         return
-    rec_s = [c for c in g.calls() if c.name == "record_success"]
-    rec_f = [c for c in g.calls() if c.name == "record_failure"]
+    rec_s = [c for c in g.calls() if role_of(c) == "record_success"]
+    rec_f = [c for c in g.calls() if role_of(c) == "record_failure"]
     seen_targets = set()
     for n, (bb_, c) in enumerate(sites):
         tgt = _const_variant(tr, b, c.args[1], c.loc)
@@ -109,7 +153,7 @@ def run(facts, tr, rep):
     utgt = arms_sw.variants["Unknown"]
     other_tgts = {arms_sw.variants[v] for v in ("Healthy", "Degraded", "Unhealthy")}
     ublocks = {x for x in g.reach([utgt], kinds=(N,)) if g.edge_dominates((arms_sw.bb, utgt), x)}
-    bad = [c for c in g.calls() if c.bb in ublocks and c.name in ("set_status", "record_success", "record_failure")]
+    bad = [c for c in g.calls() if c.bb in ublocks and role_of(c) in ("set_status", "record_success", "record_failure")]
     rep.ob("C18.THRESHOLDS", skey(b, "unknown-arm"), not bad, g.where(utgt),
            "an unknown check result changes neither the status nor the counters" if not bad else "the unknown arm calls %s" % bad[0].name)
     # timeout => Unhealthy: the matched status is the Ok payload of timeout(..).await or the constant Unhealthy on its Err edge
@@ -136,7 +180,7 @@ def run(facts, tr, rep):
            "the evaluated status is not {checker's answer | Unhealthy on timeout}")
     # ---------------------------------------------------------------- COUNTERS
     for nm, inc, zero in (("record_failure", "consecutive_failures", "consecutive_successes"), ("record_success", "consecutive_successes", "consecutive_failures")):
-        rb = [x for x in facts.crates[CRATE].bodies if x.name == nm and x.kind == "fn"]
+        rb = [x for x in facts.crates[CRATE].bodies if roles.get(x.def_) == nm and x.kind == "fn"]
         if not rb:
             rep.anchor_missing("HealthCheckedContext::" + nm)
             continue
@@ -160,9 +204,13 @@ def run(facts, tr, rep):
                "%s increments %s and zeroes %s under one write lock" % (nm, inc, zero) if ok_inc and ok_zero and len(locks) == 1 else
                "%s does not (increment %s, zero %s) under one lock" % (nm, inc, zero))
     # ---------------------------------------------------------------- SELECT
-    gwf = [x for x in facts.crates[CRATE].bodies if x.kind == "coroutine" and x.parent and x.parent.endswith("::get_with_filter")]
+    # the selection helper, by role: the async body that filters the contexts and hands the survivors to the
+    # selection strategy's select()
+    gwf = [x for x in facts.crates[CRATE].bodies if x.kind == "coroutine" and
+           any(c.name == "select" and any(d.startswith(CRATE) for d in c.targets_def()) for c in graph(x).calls()) and
+           any(c.name == "filter" and c.trait == "core::iter::traits::iterator::Iterator" for c in graph(x).calls())]
     if not gwf:
-        rep.anchor_missing("HealthCheckWrapper::get_with_filter")
+        rep.anchor_missing("the wrapper's selection helper (async body calling Iterator::filter and SelectionStrategy::select)")
     else:
         w = gwf[0]
         rep.saw(w)
